@@ -48,6 +48,12 @@ def phase_obligations(ctx, only=None):
     generated_obligations(ctx, ph.render, "Cgreen.Gen.Phases", only, "run_the_test_code() rendered into Lean")
 
 
+def mockgate_obligations(ctx):
+    """translate/mockgate.py: the stages of mock_() and the guard of its content-setting stage, rendered from the current source"""
+    import mockgate as mg
+    generated_obligations(ctx, mg.render, "Cgreen.Gen.MockGate", None, "the stages of mock_() rendered into Lean")
+
+
 def outside_bracket_scens():
     """Scenarios in which a failed check reaches the channel outside a test's own bracket: (scenario, description)."""
     late = []
@@ -2369,6 +2375,7 @@ def gen_arglist(rng, n):
 
 def check_C16(ctx):
     lean_check(ctx)
+    mockgate_obligations(ctx)
     rng = random.Random(ctx.seed * 1000 + 16)
     impl = build_impl(ctx, asan=True)
     exe = compile_harness(ctx, impl, "tok_probe", ["tok_probe.c"])
@@ -2749,6 +2756,7 @@ def check_C10(ctx):
 # ---- C12: values through mocks ------------------------------------------------------------------
 def check_C12(ctx):
     lean_check(ctx)
+    mockgate_obligations(ctx)
     rng = random.Random(ctx.seed * 1000 + 12)
     impl = build_impl(ctx, asan=True)
     exe = compile_harness(ctx, impl, "val_probe", ["val_probe.c"])
